@@ -39,6 +39,15 @@ fn main() {
             let p = find(&args[2]);
             run::one_main(&p, &args[3], &args[4])
         }
+        "confirm" if args.len() >= 5 => {
+            let p = find(&args[2]);
+            run::confirm_main(&p, &args[3], &PathBuf::from(&args[4]))
+        }
+        "dump-corpus" if args.len() >= 4 => {
+            let p = find(&args[2]);
+            coset_verif::props::dump_corpus(&p, &PathBuf::from(&args[3]));
+            0
+        }
         "worker" if args.len() >= 9 => {
             let p = find(&args[2]);
             let tier = Tier::parse(&args[3]).unwrap_or_else(|| usage());
